@@ -104,3 +104,41 @@
         }
         assert(b1 =~= b2);
     }
+    // ---- public key struct <-> public key bytes (Algorithm 23 + the precomputation NTT(t1 * 2^d) in Montgomery form)
+    pub open spec fn pk_t1_ints(pk: Seq<u8>, k: int) -> Seq<int> { Seq::new(256, |j: int| field(pk_t1_bytes(pk, k), 10, j)) }
+    pub open spec fn pk_t1hat_ok<const K: usize>(t1d2m: [T; K], pk: Seq<u8>) -> bool {
+        forall|k: int, n: int| 0 <= k < K && 0 <= n < 256 ==> cong(demont(#[trigger] t1d2m[k].0[n] as int), 8192 * spec_ntt(pk_t1_ints(pk, k))[n])
+    }
+    pub open spec fn pk_rel<const K: usize, const L: usize>(p: PublicKey<K, L>, pk: Seq<u8>) -> bool {
+        p.rho@ == pk.subrange(0, 32) && p.tr@ == stream_take(shake256(pk), 0, 64) && pk_t1hat_ok(p.t1_d2_hat_mont, pk)
+    }
+    // x == y*R, y*R == (u*R)*8192  ==>  demont(x) == u*8192 style cancellations
+    pub proof fn lemma_t1d2_step(e: int, thm: int, s: int)
+        requires cong(e * 4_294_967_296, thm * 8192), mont_of(thm, s),
+        ensures cong(e, 8192 * s),
+    {
+        lemma_cong_refl(8192);
+        lemma_cong_mul(thm, s * 4_294_967_296, 8192, 8192);
+        lemma_cong_trans(e * 4_294_967_296, thm * 8192, (s * 4_294_967_296) * 8192);
+        assert((s * 4_294_967_296) * 8192 == (8192 * s) * 4_294_967_296) by (nonlinear_arith);
+        lemma_cong_cancel_r32(e, 8192 * s);
+    }
+    pub open spec fn demont_is(r: int, s: int) -> bool { cong(demont(r), s) }
+    pub proof fn lemma_mont_of_trans(r: int, v: int, s: int)
+        requires cong(r, v * 4_294_967_296), cong(v, s),
+        ensures mont_of(r, s), demont_is(r, s),
+    {
+        lemma_cong_refl(4_294_967_296);
+        lemma_cong_mul(v, s, 4_294_967_296, 4_294_967_296);
+        lemma_cong_trans(r, v * 4_294_967_296, s * 4_294_967_296);
+        lemma_demont_of_mont(r, s);
+    }
+    pub proof fn lemma_demont_of_mont(r: int, e: int)
+        requires cong(r, e * 4_294_967_296),
+        ensures cong(demont(r), e),
+    {
+        lemma_demont(r);
+        lemma_cong_sym(r, demont(r) * 4_294_967_296);
+        lemma_cong_trans(demont(r) * 4_294_967_296, r, e * 4_294_967_296);
+        lemma_cong_cancel_r32(demont(r), e);
+    }
